@@ -13,17 +13,36 @@ class C44(Prop):
         text="Coq theorems (all lists of any element type and length < 2^62, all parameter strings) over a Gallina model of "
              "paginate/paginate2 with Go's 64-bit wrap-around explicit: pages concatenate to the list, page size bound, "
              "past-the-end pages empty, exact accept/reject syntax of the parameters, no overflow, no slice panic. The model "
-             "is tied to the code by running the real paginate on generated inputs and comparing inside Coq.",
+             "is tied to the code by running the real paginate on generated inputs and comparing inside Coq. "
+             "The callers are covered too: a list endpoint is modelled as 'items := source(); paginate; answer {itemCount, "
+             "pageCount, page}' (two shapes: paginate the items / paginate the keys, allocate, fill by index) and proved, "
+             "for every source list and all parameter strings, to answer the consecutive slice [page*ipp, page*ipp+ipp) of "
+             "its source with the whole length as itemCount (pages concatenate to the source, size bound, past-the-end "
+             "empty, 400 exactly for invalid parameters, no panic); every list endpoint of internal/api (15 routes) is "
+             "driven through the real gin router with N-item fake managers / configuration / recordings directory on "
+             "every run and each JSON answer is compared with the model; a go/ast inventory of the functions calling "
+             "paginate (route, handler, shape) must equal the model's endpoint table.",
         note="Trusted: Coq kernel+VM, the in-package driver, that Go int is 64 bit. The reflect-based slicing is modelled as "
-             "items[lo:hi] with a panic when bounds are out of order.",
+             "items[lo:hi] with a panic when bounds are out of order. Endpoint sources are fakes (the managers' own list "
+             "functions, recordstore.FindAllPathsWithSegments ordering and conf loading belong to other properties); items "
+             "are identified by an index encoded in id / name / path.",
         technique="Coq proof by induction over the page index (list chunking) + nia for the 64-bit bounds; correspondence by vm_compute")
     rule = ("generated (len, itemsPerPage, page) triples: boundary strings (signs, underscores, non-ASCII digits, "
             "2^31, 2^63, 2^64 neighbours) and random ones run through the real api.paginate on the list [0..len); "
             "sweeps run every page 0..pageCount of one list. Non-trivial = a non-empty page / a sweep with >1 page; "
-            "distinct = distinct (input, output) descriptions")
-    trusted_base = ["Coq 8.16.1 kernel + VM (vm_compute for cases)", "in-package Go driver zz_verif_c44_test.go",
+            "distinct = distinct (input, output) descriptions. Callers: each of the 15 list endpoints (config paths, paths, "
+            "forward destinations, hls muxers/sessions, rtsp/rtsps conns+sessions, rtmp/rtmps conns, webrtc, srt, moq, "
+            "recordings) is requested through the real router for source sizes N in {0,1,2,3,5,7,12,100,101, 3 random up to "
+            "221}: the default request, itemsPerPage in {1,2,3,N-1,N,N+1,100,2^31-1,random} x page in {0,1,last,last-1,"
+            "pageCount,pageCount+1,2^31-1,random} (also empty / omitted / zero-padded parameters), one rejected parameter "
+            "string (0, signs, underscore, non-ASCII digit, 2^31, NUL, ...), and a sweep over pages 0..pageCount; classes "
+            "endpoint:page / endpoint:empty-page / endpoint:status-400 / endpoint:sweep / inventory; per-route request "
+            "counts are in the driver summary")
+    trusted_base = ["Coq 8.16.1 kernel + VM (vm_compute for cases)", "in-package Go drivers zz_verif_c44_test.go, zz_verif_c44ep_test.go (fake managers, go/ast inventory)",
+                    "model Model/C44_Callers.v hand-written, tied by correspondence on all 15 endpoints + inventory",
                     "model Model/C44_Paginate.v hand-written, tied by correspondence"]
-    assumptions = ["Go int is 64 bit (wrap64 in the model)", "reflect.Value.Slice panics iff bounds are out of order"]
+    assumptions = ["Go int is 64 bit (wrap64 in the model)", "reflect.Value.Slice panics iff bounds are out of order",
+                   "a list handler's source (manager call / configuration / recordings scan) returns the same list for every page request of a sweep"]
 
 
 PROP = C44()
